@@ -1,0 +1,124 @@
+// Copyright 2020, Chef.  All rights reserved.
+// https://github.com/q191201771/lal
+//
+// Use of this source code is governed by a MIT-style license
+// that can be found in the License file.
+//
+// Author: Chef (191201771@qq.com)
+
+package rtsp
+
+import (
+	"io"
+	"strconv"
+
+	"github.com/q191201771/lal/pkg/base"
+	"github.com/q191201771/naza/pkg/nazaerrors"
+	"github.com/q191201771/naza/pkg/nazahttp"
+)
+
+// rtsp消息（request、response）的读取
+//
+// 和 nazahttp.ReadHttpRequestMessage, nazahttp.ReadHttpResponseMessage 的区别：
+// `Content-Length`是对端填的，不能直接拿来申请内存：负数直接返回错误，body的内存随着实际收到的数据增长
+
+// readBodyStep body每次最多读取的大小，也是body内存最多超前于实际收到数据的大小
+const readBodyStep = 4096
+
+func readHttpRequestMessage(r nazahttp.HttpReader) (ctx nazahttp.HttpReqMsgCtx, err error) {
+	msgCtx, err := readHttpMessage(r)
+	if err != nil {
+		return
+	}
+	ctx.Method = msgCtx.ReqMethodOrRespVersion
+	ctx.Uri = msgCtx.ReqUriOrRespStatusCode
+	ctx.Version = msgCtx.ReqVersionOrRespReason
+	ctx.Headers = msgCtx.Headers
+	ctx.Body = msgCtx.Body
+	return
+}
+
+func readHttpResponseMessage(r nazahttp.HttpReader) (ctx nazahttp.HttpRespMsgCtx, err error) {
+	msgCtx, err := readHttpMessage(r)
+	if err != nil {
+		return
+	}
+	ctx.Version = msgCtx.ReqMethodOrRespVersion
+	ctx.StatusCode = msgCtx.ReqUriOrRespStatusCode
+	ctx.Reason = msgCtx.ReqVersionOrRespReason
+	ctx.Headers = msgCtx.Headers
+	ctx.Body = msgCtx.Body
+	return
+}
+
+// readHttpMessage
+//
+// 注意，如果HTTP Header中不包含`Content-Length`，则不会读取HTTP Body，并且err返回值为nil
+func readHttpMessage(r nazahttp.HttpReader) (ctx nazahttp.HttpMsgCtx, err error) {
+	var firstLine string
+	firstLine, ctx.Headers, err = nazahttp.ReadHttpHeader(r)
+	if err != nil {
+		return ctx, err
+	}
+	ctx.ReqMethodOrRespVersion, ctx.ReqUriOrRespStatusCode, ctx.ReqVersionOrRespReason, err = nazahttp.ParseHttpRequestLine(firstLine)
+	if err != nil {
+		return ctx, err
+	}
+
+	contentLength := ctx.Headers.Get(nazahttp.HeaderFieldContentLength)
+	if len(contentLength) == 0 {
+		return ctx, nil
+	}
+	cl, err := strconv.Atoi(contentLength)
+	if err != nil {
+		return ctx, err
+	}
+	if cl < 0 {
+		return ctx, nazaerrors.Wrap(base.ErrRtsp)
+	}
+	ctx.Body, err = readBody(r, cl)
+	return ctx, err
+}
+
+// readBody 读取n字节的body
+//
+// 内存不按n一次性申请，而是随着实际收到的数据增长：容量不足时翻倍（不超过n），
+// 任意时刻容量小于 2*(已收到的数据+readBodyStep)
+func readBody(r io.Reader, n int) ([]byte, error) {
+	body := make([]byte, 0, minInt(n, readBodyStep))
+	for len(body) < n {
+		want := minInt(n-len(body), readBodyStep)
+		if cap(body)-len(body) < want {
+			newCap := n
+			if cap(body) < n/2 {
+				newCap = maxInt(2*cap(body), len(body)+want)
+			}
+			grown := make([]byte, len(body), newCap)
+			copy(grown, body)
+			body = grown
+		}
+		m, err := io.ReadFull(r, body[len(body):len(body)+want])
+		body = body[:len(body)+m]
+		if err != nil {
+			if err == io.EOF && len(body) != 0 {
+				err = io.ErrUnexpectedEOF
+			}
+			return body, err
+		}
+	}
+	return body, nil
+}
+
+func minInt(a, b int) int {
+	if a < b {
+		return a
+	}
+	return b
+}
+
+func maxInt(a, b int) int {
+	if a > b {
+		return a
+	}
+	return b
+}
